@@ -53,7 +53,17 @@ def load_module(tmp, name, src):
     spec = importlib.util.spec_from_file_location(name, path)
     mod = importlib.util.module_from_spec(spec)
     sys.modules[name] = mod
-    spec.loader.exec_module(mod)
+
+    def _alarm(*a):
+        raise TimeoutError('generated module runs too long')
+    import signal
+    old = signal.signal(signal.SIGALRM, _alarm)
+    signal.alarm(20)
+    try:
+        spec.loader.exec_module(mod)
+    finally:
+        signal.alarm(0)
+        signal.signal(signal.SIGALRM, old)
     return mod, path
 
 
